@@ -18,9 +18,10 @@
 //! Stubs: `crate::time::now` (the clock: returns the instant the harness chose, a
 //! 1-byte string — byte order is chronological order for normalized timestamps) and
 //! `alloc::fmt::format` (reason / id texts are not part of the property).
-use super::verif_c19_covers::{listed, sym_str};
-use super::verif_c19_scope::{auth_ctx, conditions, sym_list};
+#[path = "c19_common.rs"]
+mod common;
 use super::*;
+use common::{auth_ctx, conditions, is, listed, sym_list, sym_str};
 use core::mem::ManuallyDrop;
 
 pub(super) fn stub_format(_args: core::fmt::Arguments<'_>) -> String {
@@ -104,21 +105,6 @@ fn authority(
     })
 }
 
-fn is(s: &str, lit: &str) -> bool {
-    let (a, b) = (s.as_bytes(), lit.as_bytes());
-    if a.len() != b.len() {
-        return false;
-    }
-    let mut i = 0;
-    while i < a.len() {
-        if a[i] != b[i] {
-            return false;
-        }
-        i += 1;
-    }
-    true
-}
-
 /// The documented resolution order, checked after one `authorize` call:
 ///
 ///   protocol invariant (inactive Principal, suspended Space)
@@ -195,95 +181,100 @@ fn space_scope() -> ManuallyDrop<ResourceContext> {
     ManuallyDrop::new(ResourceContext { kind: String::new(), schema_ref: String::new(), classification: String::new(), element_id: String::new() })
 }
 
-/// Active Principal in an active Space; symbolic: ownership, whether the Grant's
-/// action is the requested one, whether the deny / the allow statement names the
-/// requested action, the approvals the allow statement requires.
-#[kani::proof]
-#[kani::unwind(11)]
-#[kani::stub(crate::time::now, stub_now)]
-#[kani::stub(alloc::fmt::format, stub_format)]
-fn c19_authz_precedence_space_scope() {
-    let now = choose_now();
-    let ea = authority(
-        String::new(),
-        "active",
-        "active",
-        kani::any(),
-        Vec::new(),
-        vec![
-            statement("deny", Vec::new(), Vec::new(), vec![sym_str(4)], no_scope(), no_conditions(), 0),
-            statement("allow", Vec::new(), Vec::new(), vec![sym_str(4)], no_scope(), no_conditions(), kani::any()),
-        ],
-        vec![candidate(vec![sym_str(4)], no_scope(), no_conditions(), no_constraints())],
-    );
-    let ctx = auth_ctx("", "", String::new());
-    let r = space_scope();
-    check_precedence(&ea, Permission::Read, &r, &ctx, &now);
-    kani::cover!(true, "COVER:reach");
+// Structure concrete, payload symbolic (rule 1). A first version with ONE authority
+// (1 candidate, a deny and an allow statement) whose ownership and three match
+// outcomes were symbolic did not finish in 900 s (the length of `allows` and of every
+// cloned list becomes symbolic); so who allows and who denies is enumerated as
+// concrete shapes below, and what stays symbolic inside a shape is the number of
+// approvals required (u64), the clock, the expiry instant and resource names.
+// "read" names the requested permission, "purge" does not.
+
+fn grant(action: &str) -> Candidate {
+    candidate(vec![action.to_string()], no_scope(), no_conditions(), no_constraints())
 }
 
-/// A Principal that is not active (suspended / revoked / no status at all) is denied
-/// whatever else holds: owner, an allow-everything statement, a matching Grant.
-macro_rules! inactive_harness {
-    ($name:ident, $status:expr) => {
+fn deny_on(action: &str) -> PolicyStatement {
+    statement("deny", Vec::new(), Vec::new(), vec![action.to_string()], no_scope(), no_conditions(), 0)
+}
+
+fn allow_on(action: &str, approvals: u64) -> PolicyStatement {
+    statement("allow", Vec::new(), Vec::new(), vec![action.to_string()], no_scope(), no_conditions(), approvals)
+}
+
+macro_rules! precedence_harness {
+    ($name:ident, $pstatus:expr, $sstatus:expr, $owner:expr, [$($st:expr),*], [$($cand:expr),*], $expect:expr) => {
         #[kani::proof]
         #[kani::unwind(11)]
         #[kani::stub(crate::time::now, stub_now)]
         #[kani::stub(alloc::fmt::format, stub_format)]
         fn $name() {
             let now = choose_now();
-            let ea = authority(
-                String::new(),
-                $status,
-                "active",
-                kani::any(),
-                Vec::new(),
-                vec![statement("allow", Vec::new(), Vec::new(), Vec::new(), no_scope(), no_conditions(), 0)],
-                vec![candidate(vec!["read".to_string()], no_scope(), no_conditions(), no_constraints())],
-            );
+            let approvals: u64 = kani::any();
+            let _ = approvals;
+            let ea = authority(String::new(), $pstatus, $sstatus, $owner, Vec::new(), vec![$($st(approvals)),*], vec![$($cand),*]);
             let ctx = auth_ctx("", "", String::new());
             let r = space_scope();
             let d = check_precedence(&ea, Permission::Read, &r, &ctx, &now);
-            assert!(d == Decision::Deny, "OBL:C19.authz.inactive_principal_denied");
+            let expect: fn(Decision, u64) -> bool = $expect;
+            assert!(expect(d, approvals), "OBL:C19.authz.decision_table");
             kani::cover!(true, "COVER:reach");
         }
     };
 }
-inactive_harness!(c19_authz_principal_suspended, "suspended");
-inactive_harness!(c19_authz_principal_revoked, "revoked");
-inactive_harness!(c19_authz_principal_no_status, "");
 
-/// A suspended Space denies everything, its owner included.
-#[kani::proof]
-#[kani::unwind(11)]
-#[kani::stub(crate::time::now, stub_now)]
-#[kani::stub(alloc::fmt::format, stub_format)]
-fn c19_authz_space_suspended() {
-    let now = choose_now();
-    let ea = authority(
-        String::new(),
-        "active",
-        "suspended",
-        kani::any(),
-        Vec::new(),
-        vec![statement("allow", Vec::new(), Vec::new(), Vec::new(), no_scope(), no_conditions(), 0)],
-        vec![candidate(vec!["read".to_string()], no_scope(), no_conditions(), no_constraints())],
-    );
-    let ctx = auth_ctx("", "", String::new());
-    let r = space_scope();
-    let d = check_precedence(&ea, Permission::Read, &r, &ctx, &now);
-    assert!(d == Decision::Deny, "OBL:C19.authz.suspended_space_denied");
-    kani::cover!(true, "COVER:reach");
+fn is_deny(d: Decision, _: u64) -> bool {
+    d == Decision::Deny
+}
+fn is_allow(d: Decision, _: u64) -> bool {
+    d == Decision::Allow || d == Decision::AllowWithConstraints
+}
+fn approval_or_allow(d: Decision, approvals: u64) -> bool {
+    if approvals > 0 { d == Decision::RequireApproval } else { is_allow(d, 0) }
 }
 
+// --- an explicit deny wins
+precedence_harness!(c19_authz_deny_beats_owner, "active", "active", true,
+    [|_| deny_on("read"), |n| allow_on("read", n)], [grant("read")], is_deny);
+precedence_harness!(c19_authz_deny_beats_grant, "active", "active", false,
+    [|_| deny_on("read")], [grant("read")], is_deny);
+precedence_harness!(c19_authz_deny_listed_after_allow, "active", "active", false,
+    [|n| allow_on("read", n), |_| deny_on("read")], [], is_deny);
+// a deny that does not match the operation denies nothing
+precedence_harness!(c19_authz_unrelated_deny, "active", "active", false,
+    [|_| deny_on("purge")], [grant("read")], is_allow);
+// --- default deny
+precedence_harness!(c19_authz_nothing_configured, "active", "active", false, [], [], is_deny);
+precedence_harness!(c19_authz_nothing_matches, "active", "active", false,
+    [|n| allow_on("purge", n)], [grant("purge")], is_deny);
+// --- each kind of allow on its own
+precedence_harness!(c19_authz_owner_alone, "active", "active", true, [], [], is_allow);
+precedence_harness!(c19_authz_grant_alone, "active", "active", false, [], [grant("read")], is_allow);
+// --- approvals: an allow statement that requires approvals blocks, whoever else allows
+precedence_harness!(c19_authz_statement_alone_approvals, "active", "active", false,
+    [|n| allow_on("read", n)], [], approval_or_allow);
+precedence_harness!(c19_authz_owner_needs_approvals, "active", "active", true,
+    [|n| allow_on("read", n)], [], approval_or_allow);
+precedence_harness!(c19_authz_grant_needs_approvals, "active", "active", false,
+    [|n| allow_on("read", n)], [grant("read")], approval_or_allow);
+// --- protocol invariants: a Principal that is not active / a suspended Space, with
+//     the owner, an allow statement and a matching Grant all in favour
+precedence_harness!(c19_authz_principal_suspended, "suspended", "active", true,
+    [|_| allow_on("read", 0)], [grant("read")], is_deny);
+precedence_harness!(c19_authz_principal_revoked, "revoked", "active", true,
+    [|_| allow_on("read", 0)], [grant("read")], is_deny);
+precedence_harness!(c19_authz_principal_no_status, "", "active", true,
+    [|_| allow_on("read", 0)], [grant("read")], is_deny);
+precedence_harness!(c19_authz_space_suspended, "active", "suspended", true,
+    [|_| allow_on("read", 0)], [grant("read")], is_deny);
+
 /// A named element: the deny statement is scoped by kind, the Grant by element id and
-/// bounded in time. Symbolic: ownership, the resource's kind and id, the listed kind
-/// and id, the Grant's expiry, the clock.
+/// bounded in time. Symbolic: the resource's kind and id, the listed kind and id, the
+/// Grant's expiry, the clock.
 #[kani::proof]
 #[kani::unwind(11)]
 #[kani::stub(crate::time::now, stub_now)]
 #[kani::stub(alloc::fmt::format, stub_format)]
-fn c19_authz_precedence_named_element() {
+fn c19_authz_named_element_expiry() {
     let now = choose_now();
     let mut deny_scope = no_scope();
     deny_scope.kinds = sym_list(&[1]);
@@ -294,7 +285,7 @@ fn c19_authz_precedence_named_element() {
         String::new(),
         "active",
         "active",
-        kani::any(),
+        false,
         Vec::new(),
         vec![statement("deny", Vec::new(), Vec::new(), Vec::new(), deny_scope, no_conditions(), 0)],
         vec![candidate(vec!["read".to_string()], grant_scope, grant_conditions, no_constraints())],
@@ -308,9 +299,9 @@ fn c19_authz_precedence_named_element() {
     });
     let d = check_precedence(&ea, Permission::Read, &r, &ctx, &now);
     // expiry takes effect at the instant: a Grant whose valid_until is not after the
-    // clock allows nothing, and nobody else allows a non-owner here
+    // clock allows nothing, and nobody else allows here
     let until = &ea.candidates[0].conditions.valid_until;
-    if !ea.is_owner && now.as_bytes()[0] >= until.as_bytes()[0] {
+    if now.as_bytes()[0] >= until.as_bytes()[0] {
         assert!(d == Decision::Deny, "OBL:C19.authz.expired_grant_denied");
     }
     kani::cover!(true, "COVER:reach");
@@ -441,10 +432,12 @@ statement_harness!(c19_authz_statement_unrestricted, 1, [], [], [], [], [], 0, 0
 // Principal lists
 statement_harness!(c19_authz_statement_principals_1, 1, [], [1], [], [], [], 0, 0);
 statement_harness!(c19_authz_statement_principals_2, 1, [], [1, 1], [], [], [], 0, 0);
-// groups: statement lists 1 or 2, the Principal is in 0, 1 or 2
+// groups: statement lists 1 or 2, the Principal is in 0, 1 or 2 (not 2 x 2)
 statement_harness!(c19_authz_statement_groups_none_held, 1, [], [], [1], [], [], 0, 0);
 statement_harness!(c19_authz_statement_groups_1_1, 1, [1], [], [1], [], [], 0, 0);
-statement_harness!(c19_authz_statement_groups_2_2, 1, [1, 1], [], [1, 1], [], [], 0, 0);
+statement_harness!(c19_authz_statement_groups_2_1, 1, [1, 1], [], [1], [], [], 0, 0);
+statement_harness!(c19_authz_statement_groups_1_2, 1, [1], [], [1, 1], [], [], 0, 0);
+// (2 held x 2 listed: CBMC exceeded 12 GB after 139 s — not claimed)
 // action names (4 symbolic bytes against "read")
 statement_harness!(c19_authz_statement_actions_1, 1, [], [], [], [4], [], 0, 0);
 statement_harness!(c19_authz_statement_actions_2, 1, [], [], [], [4, 6], [], 0, 0);
